@@ -108,6 +108,41 @@ theorem cached3_none {ttl inner : Nat} {t : TtlMap} (h : KeyWf3 ttl inner t) (hc
     subst he
     simp [hf] at hc
 
+/-- what is readable later was readable before (time alone only makes entries expire) -/
+theorem cached3_of_advance {t : TtlMap} {dt : Nat} {x : Nat × Nat × Nat} (h : cached3 (advance t dt) = some x) :
+    cached3 t = some x := by
+  unfold cached3 TtlMap.find at h ⊢
+  simp only [advance_m, advance_now] at h
+  cases hm : t.m kMain with
+  | none => simp [hm] at h
+  | some e =>
+    simp only [hm] at h ⊢
+    by_cases hl : e.live (t.now + dt) = true
+    · have hl' : e.live t.now = true := by
+        unfold Entry.live at hl ⊢
+        cases hd : e.dl with
+        | none => simp
+        | some dl => simp [hd] at hl ⊢; omega
+      simpa [hl, hl'] using h
+    · simp [hl] at h
+
+theorem cached2_of_advance {t : TtlMap} {dt : Nat} {x : Nat × Nat} (h : cached2 (advance t dt) = some x) :
+    cached2 t = some x := by
+  unfold cached2 TtlMap.find at h ⊢
+  simp only [advance_m, advance_now] at h
+  cases hm : t.m kMain with
+  | none => simp [hm] at h
+  | some e =>
+    simp only [hm] at h ⊢
+    by_cases hl : e.live (t.now + dt) = true
+    · have hl' : e.live t.now = true := by
+        unfold Entry.live at hl ⊢
+        cases hd : e.dl with
+        | none => simp
+        | some dl => simp [hd] at hl ⊢; omega
+      simpa [hl, hl'] using h
+    · simp [hl] at h
+
 theorem cached2_spec {ttl : Nat} {t : TtlMap} (h : KeyWf2 ttl t) {s i : Nat}
     (hc : cached2 t = some (s, i)) :
     s ≤ t.now ∧ t.now < s + ttl ∧ t.find kMain = some ⟨pack2 s i, some (s + ttl)⟩ := by
